@@ -187,16 +187,20 @@ def check_many(pid: str, harness_path: str, configs: List[Dict[str, Any]], twin_
             h, t = results[(tag, "h_" + name)], results[(tag, "t_" + name)]
             r = dict(tag=tag, name=name, verdict=h["verdict"], msg=h["msg"], args=h["args"], wall_s=h["wall_s"],
                      twin_verdict=t["verdict"], twin_ok=(t["verdict"] == COUNTEREXAMPLE),
-                     twin_wall_s=t["wall_s"], harness=gen, env=cfg.get("env") or {}, allow_vacuous=bool(cfg.get("allow_vacuous")))
+                     twin_wall_s=t["wall_s"], harness=gen, env=cfg.get("env") or {}, allow_vacuous=bool(cfg.get("allow_vacuous")),
+                     timing_dependent=bool(cfg.get("timing_dependent")))
             if h["verdict"] == COUNTEREXAMPLE:
                 if h["args"] is None:
                     r["reproduced"] = False
                     r["replay"] = dict(status="unparseable", err=h["msg"])
                 else:
-                    rp = replay(gen, "h_" + name, h["args"], envs[tag])
-                    r["replay"] = rp
-                    r["reproduced"] = (rp.get("status") == "raised") or (
-                        rp.get("status") == "returned" and rp.get("value") is False)
+                    for _attempt in range(3 if cfg.get("timing_dependent") else 1):
+                        rp = replay(gen, "h_" + name, h["args"], envs[tag])
+                        r["replay"] = rp
+                        r["reproduced"] = (rp.get("status") == "raised") or (
+                            rp.get("status") == "returned" and rp.get("value") is False)
+                        if r["reproduced"]:
+                            break
             if h["verdict"] == ERROR:
                 r["raw"] = h["raw"]
             out.append(r)
@@ -215,12 +219,24 @@ def record(run, results: List[Dict[str, Any]], prefix: str, keyfn, bounds: str =
                 # a partition of a larger input space that happens to contain no admissible input
                 run.ok(name, eng, solver_s=r["wall_s"], verdict_text="empty partition (no input meets the precondition)", **detail)
                 continue
+            if r.get("timing_dependent") and r["twin_verdict"] == NO_PRE:
+                # harnesses around solve() abandon a configuration whose first call exceeds a wall-clock guard; on a loaded
+                # machine that can be every configuration of a partition
+                run.inconclusive(name, eng, "no configuration of this partition finished within the wall-clock guard (twin: %s)" % r["twin_verdict"],
+                                 solver_s=r["wall_s"], **detail)
+                continue
             run.harness_error("vacuous harness %s: reachability twin verdict %s" % (name, r["twin_verdict"]))
             continue
         if r["verdict"] == ERROR:
             run.harness_error("crosshair failed on %s: %s" % (name, (r.get("msg") or "")[-300:] + (r.get("raw") or "")[-300:]))
             continue
         if r["verdict"] == COUNTEREXAMPLE:
+            if not r.get("reproduced") and r.get("timing_dependent"):
+                # the code under test depends on the wall clock (Z3 query timeouts, the guard around solve()): a failure that
+                # three replays in a fresh interpreter do not show again is reported as inconclusive, with its input
+                run.inconclusive(name, eng, "counterexample %s seen once under CrossHair but not reproduced by three replays (timing-dependent code): %s"
+                                 % (r["args"], r["replay"]), solver_s=r["wall_s"], **detail)
+                continue
             if not r.get("reproduced"):
                 run.harness_error("counterexample of %s did not reproduce outside CrossHair: args=%s replay=%s"
                                   % (name, r["args"], r["replay"]))
